@@ -182,7 +182,9 @@ class Interp:
         return out
 
     def native_call(self, f, args, kwargs, where):
-        container_method = isinstance(getattr(f, "__self__", None), (dict, list, set, frozenset, tuple)) or f in (list, tuple, set, frozenset, dict, len, bool, any, all, zip, enumerate, reversed, sorted, min, max)
+        import collections as _c
+
+        container_method = isinstance(getattr(f, "__self__", None), (dict, list, set, frozenset, tuple, _c.deque)) or f in (list, tuple, set, frozenset, dict, len, bool, any, all, zip, enumerate, reversed, sorted, min, max)
         for a in list(args) + list(kwargs.values()):
             if isinstance(a, (Rec, Func, ClassRef)) and not container_method:
                 raise AnalysisError(f"pyint: abstract value passed to a native callable at {where}")
@@ -754,6 +756,21 @@ class Interp:
             raise AnalysisError(f"pyint: module {m.rel} has no attribute {attr}")
         if isinstance(base, tuple) and base and base[0] == "$typing":
             return ("$typing", base[1] + "." + attr)
+        if isinstance(base, tuple) and base and base[0] == "$super":
+            _, me, fnode = base
+            mro = self.model.mro(*me._impl)
+            # the class that defines the running method
+            idx = next((i for i, (mm, cc) in enumerate(mro) if any(st is fnode for st in cc.body)), None)
+            if idx is None:
+                raise AnalysisError("pyint: super(): defining class not found")
+            for mm, cc in mro[idx + 1 :]:
+                for st in cc.body:
+                    if isinstance(st, (ast.FunctionDef,)) and st.name == attr:
+                        return Func(mm, st, bound=me)
+            ext = me.__dict__.get("_super_stubs", {})
+            if attr in ext:
+                return ext[attr]
+            raise AnalysisError(f"pyint: super().{attr} is neither a repository method nor a rule-supplied stub")
         if isinstance(base, tuple) and base and base[0] == "$enum":
             if attr == "value":
                 return base[3]
@@ -858,6 +875,11 @@ class Interp:
             return type(v)
         if name == "print":
             return None
+        if name == "super":
+            me, fnode = env.get("$self"), env.get("$fn")
+            if not isinstance(me, Rec) or me._impl is None or fnode is None:
+                raise AnalysisError("pyint: super() outside a method of a bound record")
+            return ("$super", me, fnode)
         if name in ("next", "iter"):
             if name == "iter":
                 return iter(self.iterate(args[0], e))
@@ -934,6 +956,8 @@ class Interp:
         args = list(args)
         if f.bound is not None and params and params[0] in ("self", "cls"):
             args = [f.bound] + args
+            env["$self"] = f.bound
+            env["$fn"] = node
         for p, v in zip(params, args):
             env[p] = v
         extra = args[len(params):]
